@@ -579,3 +579,201 @@ pub fn gen(rng: &mut Rng, tier: &str, out: &mut Vec<String>) {
         }
     }
 }
+
+// ---------------------------------------------------------------------------------------
+// boundary hunt: final encoder states whose interval ends sit on / next to word boundaries
+
+/// classes of a final state `(lower, range)`: residues of the interval ends modulo `2^(S-W)`
+/// and the relation of the point word to the upper word
+fn boundary_classes(lower: u128, range: u128, w: u32, s: u32) -> Vec<&'static str> {
+    let m = mask(s);
+    let u = 1u128 << (s - w);
+    let up = lower.wrapping_add(range) & m;
+    let (ur, lr) = (up & (u - 1), lower & (u - 1));
+    let mut v = Vec::new();
+    if ur == 0 { v.push("up=0"); }
+    if ur == 1 { v.push("up=1"); }
+    if ur == 2 { v.push("up=2"); }
+    if ur == u - 1 { v.push("up=-1"); }
+    if ur == u - 2 { v.push("up=-2"); }
+    if lr == 0 { v.push("lo=0"); }
+    if lr == 1 { v.push("lo=1"); }
+    if lr == u - 1 { v.push("lo=-1"); }
+    if s > 2 * w {
+        let z = 1u128 << (s - 2 * w);
+        if ur < z { v.push("up.lowzone"); }
+        if ur >= u - z { v.push("up.highzone"); }
+        if lr < z { v.push("lo.lowzone"); }
+        if lr >= u - z { v.push("lo.highzone"); }
+    }
+    v
+}
+
+fn word_relation(lower: u128, range: u128, w: u32, s: u32) -> &'static str {
+    let m = mask(s);
+    let u = 1u128 << (s - w);
+    let pw = (lower.wrapping_add(u - 1) & m) >> (s - w);
+    let uw = (lower.wrapping_add(range) & m) >> (s - w);
+    if pw == uw { "pointword=upperword" } else if (pw + 1) & mask(w) == uw { "pointword+1=upperword" } else { "pointword<<upperword" }
+}
+
+/// solutions of `a * q ≡ rhs (mod 2^k)` as `(q0, step)`: `q ≡ q0 (mod step)`
+fn solve_lin(a: u128, rhs: u128, k: u32) -> Option<(u128, u128)> {
+    if k == 0 {
+        return Some((0, 1));
+    }
+    let mm = mask(k);
+    let (a, r) = (a & mm, rhs & mm);
+    if a == 0 {
+        return if r == 0 { Some((0, 1)) } else { None };
+    }
+    let v = a.trailing_zeros();
+    if r & ((1u128 << v) - 1) != 0 {
+        return None;
+    }
+    let (a1, r1, k1) = (a >> v, r >> v, k - v);
+    let mut x = a1;
+    for _ in 0..7 {
+        x = x.wrapping_mul(2u128.wrapping_sub(a1.wrapping_mul(x)));
+    }
+    Some((r1.wrapping_mul(x) & mask(k1), 1u128 << k1))
+}
+
+/// up to three members of `{q ≡ q0 (mod step)} ∩ [lo, hi]`
+fn in_range(rng: &mut Rng, sol: Option<(u128, u128)>, lo: u128, hi: u128) -> Vec<u128> {
+    let mut v = Vec::new();
+    if let Some((q0, step)) = sol {
+        if lo > hi {
+            return v;
+        }
+        let first = if q0 >= lo { q0 } else { q0 + (lo - q0 + step - 1) / step * step };
+        if first > hi {
+            return v;
+        }
+        let count = (hi - first) / step + 1;
+        v.push(first);
+        v.push(first + (count - 1) * step);
+        v.push(first + rng.below(count) * step);
+        v.dedup();
+    }
+    v
+}
+
+/// candidate `(cum, q)` (`q = cum + p`) for the last symbol, aiming the interval ends at word
+/// boundaries without renormalising
+fn final_candidates(rng: &mut Rng, lower: u128, range: u128, w: u32, s: u32, p: u32) -> Vec<(u128, u128)> {
+    let total = pow2(p);
+    let scale = range >> p;
+    let mut out: Vec<(u128, u128)> = Vec::new();
+    if scale == 0 {
+        return out;
+    }
+    let u = 1u128 << (s - w);
+    let k = s - w;
+    let pmin = ((u + scale - 1) / scale).max(1); // smallest p without renormalisation
+    if pmin > total {
+        return out;
+    }
+    let up_targets = [0u128, 1, 2, u - 1, u - 2];
+    let lo_targets = [0u128, 1, u - 1];
+    let mut cums: Vec<u128> = vec![0];
+    for &t in &lo_targets {
+        let sol = solve_lin(scale, t.wrapping_sub(lower), k);
+        cums.extend(in_range(rng, sol, 0, total - pmin));
+    }
+    // nearest candidates around the next boundaries (exact solutions are rare for S > 2W)
+    let d0 = u - (lower & (u - 1));
+    let span = scale * total;
+    let mut d = d0;
+    let mut near_q: Vec<u128> = Vec::new();
+    let mut nb = 0;
+    while d <= span && nb < 3 {
+        near_q.push((d - 1) / scale);
+        near_q.push((d + scale - 1) / scale);
+        if (d - 1) / scale <= total - pmin {
+            cums.push((d - 1) / scale);
+        }
+        if (d + scale - 1) / scale <= total - pmin {
+            cums.push((d + scale - 1) / scale);
+        }
+        d += u;
+        nb += 1;
+    }
+    let mut qs: Vec<u128> = Vec::new();
+    for &t in &up_targets {
+        let sol = solve_lin(scale, t.wrapping_sub(lower), k);
+        qs.extend(in_range(rng, sol, pmin, total));
+    }
+    qs.extend(near_q.into_iter().filter(|&q| q >= pmin && q <= total));
+    for &q in &qs {
+        out.push((0, q));
+        out.push((q - pmin, q));
+        out.push((rng.below(q - pmin + 1), q));
+        for &c in &cums {
+            if c + pmin <= q {
+                out.push((c, q));
+            }
+        }
+    }
+    for &c in &cums {
+        if c + pmin <= total {
+            out.push((c, c + pmin));
+            out.push((c, total));
+            out.push((c, c + pmin + rng.below(total - c - pmin + 1)));
+        }
+    }
+    out.retain(|&(c, q)| c < q && q <= total && !(c == 0 && q == total));
+    out
+}
+
+const HUNT_CLASSES: [&str; 12] = [
+    "up=0", "up=1", "up=2", "up=-1", "up=-2", "lo=0", "lo=1", "lo=-1", "up.lowzone", "up.highzone", "lo.lowzone", "lo.highzone",
+];
+
+/// the last symbol of a hunted message: tries the candidates on clones of the live encoder and
+/// returns one whose final state falls into the wanted class (or any class, or `None`)
+fn hunt_final<C: RangeCombo>(rng: &mut Rng, e: &Enc<C>, w: u32, s: u32, b: u32, p: u32, budget: usize) -> Option<(Vec<u128>, usize, bool)> {
+    let (lower, range, _) = enc_view::<C>(e);
+    let mut cands = final_candidates(rng, lower, range, w, s, p);
+    for i in (1..cands.len()).rev() {
+        let j = rng.below(i as u128 + 1) as usize;
+        cands.swap(i, j);
+    }
+    let nclass = if s > 2 * w { HUNT_CLASSES.len() } else { 8 };
+    let want = HUNT_CLASSES[rng.below(nclass as u128) as usize];
+    let mut fallback: Option<(Vec<u128>, usize)> = None;
+    for &(cum, q) in cands.iter().take(budget) {
+        let (cdf, sym) = cdf_around(p, cum, q);
+        let mut e2 = e.clone();
+        if !matches!(guarded(|| C::enc_sym(&mut e2, b, p, &cdf, sym)), Ok(Some(ref x)) if x == "ok") {
+            continue;
+        }
+        let (lo2, r2, _) = enc_view::<C>(&e2);
+        let cl = boundary_classes(lo2, r2, w, s);
+        if cl.contains(&want) {
+            return Some((cdf, sym, true));
+        }
+        if !cl.is_empty() && fallback.is_none() {
+            fallback = Some((cdf, sym));
+        }
+    }
+    fallback.map(|(c, sy)| (c, sy, false))
+}
+
+/// the symbol before the last one of a hunted message: prefers a choice after which
+/// `hunt_final` succeeds
+fn hunt_prep<C: RangeCombo>(rng: &mut Rng, e: &Enc<C>, w: u32, s: u32, b: u32, p: u32, pool: &[(u32, u32, Vec<u128>)]) -> (Vec<u128>, usize) {
+    let mut last = steer::<C>(rng, e, w, s, p, pool, b);
+    for _ in 0..6 {
+        let mode = match rng.next() % 3 { 0 => Some(7), 1 => Some(4), _ => None };
+        let (cdf, sym) = steer_mode::<C>(rng, e, w, s, p, pool, b, mode);
+        let mut e2 = e.clone();
+        if matches!(guarded(|| C::enc_sym(&mut e2, b, p, &cdf, sym)), Ok(Some(ref x)) if x == "ok") {
+            if hunt_final::<C>(rng, &e2, w, s, b, p, 8).is_some() {
+                return (cdf, sym);
+            }
+        }
+        last = (cdf, sym);
+    }
+    last
+}
